@@ -357,7 +357,16 @@ def c_state_arith(ctx, args):
     return None
 
 
-CHECKS = {'state_arith': c_state_arith, 'reduce_large': c_reduce_large, 'torch_expr': c_torch_expr, 'expr': c_expr, 'trace': c_trace, 'qutip': c_qutip, 'linear': c_linear}
+def c_op_history(ctx, args):
+    """ONE operator object used (products, sums, casts, printing), updated in place, used again: see vlib.history.operator_history"""
+    from vlib import history
+    kind, n, seed, steps, be = args
+    if be == 'torch' and kind == 'mono':
+        return None
+    return history.operator_history(ctx, kind, n, seed, steps, be)
+
+
+CHECKS = {'op_history': c_op_history, 'state_arith': c_state_arith, 'reduce_large': c_reduce_large, 'torch_expr': c_torch_expr, 'expr': c_expr, 'trace': c_trace, 'qutip': c_qutip, 'linear': c_linear}
 
 COEFS = [1, -1, 2, -2, 3, 0.5, -0.5, 0.25, 1j, -1j, 2j, 1 + 1j, 1 - 1j, -1 + 2j, 0.5 + 0.5j, 3 - 1j, -0.75j]
 DIVS = [1, -1, 2, -2, 4, 1j, -1j, 2j, 1 + 1j, 1 - 1j, 0.5]
@@ -485,3 +494,7 @@ def run(ctx):
                     g = [a | b for a, b in zip(g, site(q2, rng.choice([1, 2, 3])))]
             terms.append([g, rng.choice([0, 0, 2, 1]), rng.choice([1.0, -1.0, 0.5, 2.0, -0.25])])
         do(ctx, 'reduce_large', [rng.choice(['np', 'torch']), n, terms, rng.choice(['reduce', 'add'])], nontrivial=('rl', it))
+    # one long-lived operator object: uses interleaved with in-place updates
+    for it in range(int(60 * B)):
+        kinds, bes = ['pauli', 'mono', 'list', 'poly'], ['np', 'np', 'torch']
+        do(ctx, 'op_history', [kinds[it % len(kinds)], rng.randint(1, 3), rng.randrange(10 ** 6), rng.randint(4, 12), bes[(it // len(kinds)) % len(bes)]], nontrivial=('oph', it))
